@@ -8,6 +8,7 @@
       lv = a | lv = a ∘ b | lv ∘= a | lv++ | lv--     lv ::= v | t[i] | X | Y    a, b ::= n | v | t[i] | X | Y
       i ::= n | X | Y     ∘ ∈ {+, −, &, |, ^}          (stage 1: v only; stage 3: X and Y; stage 4: array elements)
       s = w | s = w ∘ w | s ∘= w      s an `unsigned short` variable; w ::= s | n ≤ 65535 | v      (stage 6)
+      lv = a ∘ b ∘ c …                 chains of two or more operators grouped to the left              (stage 7)
       { S… } | if (c) S | if (c) S else S | while (c) S | do S while (c); | for (F; c; F) S   (stage 2)
       break; | continue; | if (c) break; | if (c) continue;   inside loops                    (stage 5)
       c ::= a ⋈ b | lv | !lv | c && c | c || c | !c     ⋈ ∈ {==, !=, <, >=, >, <=}; no ordered comparison with
@@ -47,6 +48,10 @@
      (low bytes, carry / borrow, high bytes read after the low byte was stored); `wide_stmt_is_word_arithmetic` and
      `wide_code_correct` show that this IS 16-bit arithmetic on the two cells of `s` — and nothing else changes —
      for every layout in which the high cell of a 16-bit operand is not the low cell of the destination.
+   * stage 7 (chains): `lv = a ∘1 b1 ∘2 b2 …` — after the first operator the left operand is the accumulator; every
+     further operator is one `opCode` (carry set-up, identity omission, register operands through the scratch cell);
+     the meaning is the left fold (`chainVal`, with the scratch writes; `chainPure` without). Part of `RStmt`, hence of
+     every theorem above.
    * `fresh_labels`: every label the generator defines is new (counter ranges), the fact behind the
      uniqueness of labels in emitted code (used again by C13).
    * `adc_after_clc`, `sbc_after_sec`, `negate_means_not`, `mirror_means_swap`: the arithmetic and
@@ -287,5 +292,11 @@ example (L : Layout) (σ : SrcSt) :
   · simp [sem, rspec, evalCond, wr, rval, LV.ra, val, ca, h]
   · have h' : ¬ σ.x = 0#8 := h
     simp [sem, rspec, evalCond, wr, rval, LV.ra, val, ca, h']
+
+/-! non-vacuity of stage 7 -/
+example : rgenText (fun _ => true) (.chain (.var "v") (.of (.const 3)) .add (.of (.var "a")) [(.sub, .x), (.bor, .of (.el "t" .y))]) =
+    [(.LDA, "a"), (.CLC, ""), (.ADC, "#3"), (.SEC, ""), (.STX, "cctmp"), (.SBC, "cctmp"), (.ORA, "t,Y"), (.STA, "v")] := by decide
+example : RInFragment (.chain (.var "v") (.of (.var "a")) .add (.of (.var "b")) [(.sub, .of (.var "c"))]) = true := by decide
+
 
 end CV.C01
